@@ -186,6 +186,10 @@ class Ptychography(PtychographyOpt, PtychographyVisualizations, PtychographyBase
             self.optimizer_params = optimizer_params
             self.set_optimizers()
             new_scheduler = True
+        elif reset:
+            # reset_recon() left a scheduler attached to every optimizer (it has already set the first
+            # learning rate): the schedulers built below need optimizers no scheduler has touched
+            self.set_optimizers()
 
         if scheduler_params is not None:
             self.scheduler_params = scheduler_params
